@@ -27,7 +27,7 @@ theorem writer_close_tie {α δ : Type} {S : AgeModel.Stream.DstSpec} (A : AEAD)
     (hctr : m.ctr + 2 < 2 ^ 88) :
     ∃ res, Extracted.stream_Writer_Close E.seal_ D.write w = .ok res ∧
       let mc := m.close A 65536 (2 ^ 88) k
-      GoTie.wrErrRel res.1 D.eW mc.2 ∧
+      GoTie.wrErrRel res.1 D.eW mc.2 ∧ GoTie.WRel D res.2 mc.1 ∧
       (mc.2 = none → D.absD res.2.dst = mc.1.dst) ∧
       GoTie.wrErrRel res.2.err D.eW mc.1.err :=
   GoTie.writer_close_tie A k E D w m h hctr
@@ -46,6 +46,27 @@ theorem reader_new_rel {α : Type} (a : α) (data : Bytes) (fail : Bool) :
     GoTie.RRel (⟨a, ⟨data, fail⟩, 0, 0, List.replicate 65552 0, none, List.replicate 12 0⟩ : Extracted.stream_Reader α)
       (AgeModel.Stream.Reader.new ⟨data, fail⟩) :=
   GoTie.reader_new_rel a data fail
+
+/-- after `Close` — successful or not — every further `Write` and `Close` of the TRANSLATED writer is
+    refused and touches nothing (count 0, the stored non-nil error, the unchanged struct), exactly as the
+    model's (`Props.C13.writer_sticky`). `writer_close_tie` re-establishes `WRel` after `Close`, and the
+    model's state after any `Close` has `err = some _` (`writer_close_err_some`), so this applies to the
+    states `Close` leaves — whether it succeeded or failed. -/
+theorem writer_after_close_stuck {α δ : Type} {S : AgeModel.Stream.DstSpec} (A : AEAD) (k : Bytes) (E : GoTie.AeadEnv α A k)
+    (D : GoTie.DstEnv δ S) (w : Extracted.stream_Writer α δ) (m : AgeModel.Stream.Writer S) (h : GoTie.WRel D w m)
+    (e : AgeModel.Stream.Outcome) (hme : m.err = some e) :
+    w.err ≠ none ∧ GoTie.wrErrRel w.err D.eW (some e) ∧
+    (∀ p, Extracted.stream_Writer_Write E.seal_ D.write w p = .ok (0, w.err, w) ∧
+          m.write A 65536 (2 ^ 88) k p = (m, 0, some e)) ∧
+    Extracted.stream_Writer_Close E.seal_ D.write w = .ok (w.err, w) ∧
+    m.close A 65536 (2 ^ 88) k = (m, some e) :=
+  GoTie.writer_after_close_stuck A k E D w m h e hme
+
+/-- the model's writer carries a sticky error after ANY `Close` (`.closed` after a successful one), so
+    `writer_after_close_stuck` applies to the related pair of states `writer_close_tie` returns -/
+theorem writer_close_err_some {S : AgeModel.Stream.DstSpec} (A : AEAD) (C L : Nat) (k : Bytes) (m : AgeModel.Stream.Writer S) :
+    ∃ e, (m.close A C L k).1.err = some e :=
+  GoTie.writer_close_err_some A C L k m
 
 /-- "a failed Encrypt returns no writer", about the code (`Props.C13.encrypt_failure_no_writer` holds of the model by
     the type of its result alone): whenever the translated `age.Encrypt` reports an error — whatever the recipients,
